@@ -12,7 +12,7 @@ optimisation level, and end with the same operand-stack depth.
 from .. import core, real, tickrec
 
 LEAN_MODULE = 'QbeeModel.Props.C10'
-REQUIRED = ['armed_dispatch', 'err_reports_kind', 'resume_reexecutes', 'resume_next_continues', 'on_error_resume_next_skips',
+REQUIRED = ['armed_dispatch', 'armed_dispatch_from_procedure', 'err_reports_kind', 'resume_reexecutes', 'resume_next_continues', 'on_error_resume_next_skips',
             'on_error_goto_0_restores']
 
 FIXES = 'z% = 1 : k% = 1 : o% = 0 : c% = 65 : f$ = "##"'
@@ -61,7 +61,7 @@ BAD_ERR = {1: (14, 'DIVISION_BY_ZERO'), 2: (11, 'INDEX_OUT_OF_RANGE'), 3: (9, 'I
 
 def gen_case(rng, mode=None, allow_deep=True):
     """-> (P, R, info).  Items are (kind, text): the layout (blocks, colon joins) is shared by P and R."""
-    mode = mode or rng.choice(['next', 'resume', 'skip', 'goto0', 'proc'])
+    mode = mode or rng.choice(['next', 'resume', 'skip', 'goto0', 'proc', 'procnext', 'procresume'])
     n = rng.randint(2, 7)
     items = []          # ('ok', stmt) | ('fail', brk, stmt, err, name, deep)
     nfail = 0
@@ -82,14 +82,16 @@ def gen_case(rng, mode=None, allow_deep=True):
         cut = rng.randint(0, len(items) - 1)
         if not any(it[0] == 'fail' for it in items[cut:]):
             items.append(('fail',) + rng.choice(TEMPLATES))
-    if mode == 'proc':
+    if mode in ('proc', 'procnext', 'procresume'):
         which = rng.randint(1, 3)
         pos = rng.randint(0, len(items))
         items.insert(pos, ('bad', which))
+        if mode != 'proc' and rng.random() < 0.5:
+            items.insert(rng.randint(0, len(items)), ('bad', rng.randint(1, 3)))
     p, r = [], []
     halted_with = None
     # optional block around a run of items
-    blk = rng.choice([None, None, 'for', 'if', 'gosub', 'select', 'do', 'line', 'lineelse']) if mode != 'proc' else None
+    blk = rng.choice([None, None, 'for', 'if', 'gosub', 'select', 'do', 'line', 'lineelse']) if not mode.startswith('proc') else None
     if blk == 'gosub' and any(it[0] == 'fail' and it[5] for it in items):
         blk = 'for'       # partial results under a GOSUB return address are the known stack finding: probed separately
     blk_from = rng.randint(0, len(items) - 1) if blk else None
@@ -107,6 +109,16 @@ def gen_case(rng, mode=None, allow_deep=True):
         if it[0] == 'ok':
             pl.append(it[1])
             rl.append(it[1])
+        elif it[0] == 'bad' and mode == 'procnext':
+            # an error inside a procedure is accounted to the module-level CALL: RESUME NEXT goes on after it
+            pl.append(f'CALL bad({it[1]})')
+            rl.append(f'PRINT "H"; {BAD_ERR[it[1]][0]}')
+        elif it[0] == 'bad' and mode == 'procresume':
+            # ... and RESUME runs the CALL again (the handler has made it harmless)
+            pl.append(f'bm% = {it[1]}')
+            pl.append('CALL bad(bm%)')
+            rl.append(f'PRINT "H"; {BAD_ERR[it[1]][0]}')
+            rl.append('CALL bad(0)')
         elif it[0] == 'bad':
             pl.append(f'CALL bad({it[1]})')
             rl.append(f'PRINT "H"; {BAD_ERR[it[1]][0]}')
@@ -121,13 +133,13 @@ def gen_case(rng, mode=None, allow_deep=True):
                 rl.append('END')
                 if halted_with is None:
                     halted_with = name
-            elif mode in ('next', 'proc'):
+            elif mode in ('next', 'proc', 'procnext'):
                 pl.append(st)
                 rl.append(f'PRINT "H"; {err}')
             elif mode == 'goto0':
                 pl.append(st)
                 rl.append(f'PRINT "H"; {err}')
-            elif mode == 'resume':
+            elif mode in ('resume', 'procresume'):
                 pl.append(st)
                 rl.append(f'PRINT "H"; {err}')
                 rl.append(FIXES)
@@ -188,10 +200,11 @@ def gen_case(rng, mode=None, allow_deep=True):
     # colon-join some adjacent simple statements identically in both (only outside blocks, same indices impossible:
     # P and R differ in length) - so join inside each separately but only 'ok' pairs that are equal in both
     on = {'next': 'ON ERROR GOTO h', 'resume': 'ON ERROR GOTO h', 'skip': 'ON ERROR RESUME NEXT', 'goto0': 'ON ERROR GOTO h',
-          'proc': 'ON ERROR GOTO h'}[mode]
+          'proc': 'ON ERROR GOTO h', 'procnext': 'ON ERROR GOTO h', 'procresume': 'ON ERROR GOTO h'}[mode]
     handler = {'next': ['h: PRINT "H"; ERR', 'RESUME NEXT'], 'goto0': ['h: PRINT "H"; ERR', 'RESUME NEXT'],
                'resume': ['h: PRINT "H"; ERR', FIXES, 'RESUME'], 'skip': [],
-               'proc': ['h: PRINT "H"; ERR', 'END']}[mode]
+               'proc': ['h: PRINT "H"; ERR', 'END'], 'procnext': ['h: PRINT "H"; ERR', 'RESUME NEXT'],
+               'procresume': ['h: PRINT "H"; ERR', FIXES + ' : bm% = 0', 'RESUME']}[mode]
     if mode == 'proc':
         # the handler ends the program at the first error, whichever it is
         rr = []
@@ -254,9 +267,9 @@ def run(chk):
     chk.audit(LEAN_MODULE, REQUIRED)
     ncase = chk.n(150, 3000)
     tasks, infos = [], []
-    fixed_modes = ['next', 'resume', 'skip', 'goto0', 'proc']
+    fixed_modes = ['next', 'resume', 'skip', 'goto0', 'proc', 'procnext', 'procresume']
     for i in range(ncase):
-        mode = fixed_modes[i % 5] if i < 25 else None
+        mode = fixed_modes[i % 7] if i < 35 else None
         P, R, info = gen_case(rng, mode)
         tasks.append((P, R, i % 3))
         infos.append(info)
